@@ -170,50 +170,47 @@ class CouplingLevyCopulaSimulation:
             axis_coordinates.remove(j)
             return self.__coupling_state(increment, axis_coordinates)
         else:
-            # projection on the axis defined by the indices in axis_coordinates
+            # projection on the axis defined by the indices in axis_coordinates: each of these (odd) coordinates is
+            # moved to its left or right neighbour with the probability that a jump of the Lévy measure which falls in
+            # the cell of the fine state also falls in the corresponding half of that cell (in these coordinates, the
+            # other coordinates staying in their own cell), so that the coarse chain keeps the law of the level below
             position = grid.origin_coordinate + increment
             mass = self.coupling_process.model.mass
             value = grid[position]
             u = self.coupling_process._uniform.sample()
 
-            projected_position = CoordinateND(position[k] for k in axis_coordinates)
-            projected_value = tuple(value[k] for k in axis_coordinates)
+            mid_left_value = grid.middle(grid.left_point(position), value)
+            mid_right_value = grid.middle(value, grid.right_point(position))
 
-            projected_mid_left_value = grid.middle(
-                grid.left_point(projected_position), projected_value
-            )
-            projected_mid_right_value = grid.middle(
-                projected_value, grid.right_point(projected_position)
-            )
-            total_mass = mass(
-                projected_mid_left_value, projected_mid_right_value, axis_coordinates
-            )
+            corners, masses = [], []
+            for p in product([-1, 1], repeat=len(axis_coordinates)):
+                p_left_value, p_right_value = list(mid_left_value), list(mid_right_value)
+                res = list(value)
+                for k, pk in zip(axis_coordinates, p):
+                    if pk < 0:
+                        p_right_value[k] = value[k]
+                    else:
+                        p_left_value[k] = value[k]
+                    res[k] = grid.axes[k][position[k] + pk]
+                corners.append(res)
+                masses.append(max(mass(p_left_value, p_right_value), 0.0))
+
+            # the pieces add up to the cell of the fine state: normalising by their sum avoids any rounding issue
+            total_mass = sum(masses)
+            if not total_mass > 0:
+                raise ValueError(
+                    "couplinglevycopula::__coupling_state -> the state {} has no mass".format(
+                        increment
+                    )
+                )
 
             probability = 0
-            for p in product([-1, 1], repeat=len(axis_coordinates)):
-                p_value = grid[projected_position + p]
-                p_middle_value = grid.middle(p_value, projected_value)
-                min_max = tuple(
-                    (min(p1, p2), max(p1, p2))
-                    for p1, p2 in zip(projected_value, p_middle_value)
-                )
-                p_left_value, p_right_value = zip(*min_max)
-                p_mass = mass(p_left_value, p_right_value, axis_coordinates)
+            for res, p_mass in zip(corners, masses):
                 probability += p_mass / total_mass
                 if u <= probability:
-                    res = tuple(
-                        p_value[axis_coordinates.index(k)]
-                        if k in axis_coordinates
-                        else value[k]
-                        for k in range(dim)
-                    )
                     return np.array(res)
 
-            raise ValueError(
-                "couplinglevycopula::__coupling_state -> Numerical error? probability={:6f}, u={:6f}".format(
-                    probability, u
-                )
-            )
+            return np.array(corners[-1])
 
     def _coupling_states_for_a_slice(self, slice_fine_states: np.array):
         if len(slice_fine_states):
@@ -254,7 +251,7 @@ class CouplingLevyCopulaSimulationFixedTimes(CouplingLevyCopulaSimulation):
         for k, (slice_fine_states, slice_fine_values) in enumerate(
             zip(fine_states_increments, fines_states_allvalues)
         ):
-            if slice_fine_states:
+            if len(slice_fine_states):
                 slice_coarse_values = self._coupling_states_for_a_slice(
                     slice_fine_states
                 )
@@ -321,7 +318,7 @@ class CouplingLevyCopulaSimulationWithJumpTimes(CouplingLevyCopulaSimulation):
         for k, (slice_fine_states, slice_fine_values) in enumerate(
             zip(fine_states_increments, fines_states_allvalues)
         ):
-            if slice_fine_states:
+            if len(slice_fine_states):
                 slice_coarse_values = self._coupling_states_for_a_slice(
                     slice_fine_states
                 )
